@@ -81,3 +81,61 @@ func isRetryClosure(fn *ssa.Function) bool {
 	})
 	return found
 }
+
+// checkRetryAccumulatesNothing: what an attempt of a retried closure reads or builds does not pile up in something
+// captured from outside the closure — an attempt that failed half-way must leave nothing behind for the next one.
+// A closure that copies the downloaded bytes into a captured buffer returns, after a failed first attempt, the bytes of
+// that attempt followed by the whole file; concatenated protobuf messages decode, map entries collapse, and the size
+// counted per entry no longer matches the content.
+func checkRetryAccumulatesNothing(p *core.Prog, r *core.Report, rule string) {
+	n := 0
+	for _, fn := range p.RepoFunctions() {
+		root := core.RootFn(fn)
+		if root.Pkg == nil || !strings.HasPrefix(root.Pkg.Pkg.Path(), core.ModPath+"/storage") || !isRetryClosure(fn) {
+			continue
+		}
+		n++
+		r.Touch(core.FuncName(fn))
+		fromOutside := func(v ssa.Value) bool {
+			for x := range core.OperandSlice(v) {
+				if _, ok := x.(*ssa.FreeVar); ok {
+					return true
+				}
+			}
+			return false
+		}
+		var bad []string
+		core.Instrs(fn, func(in ssa.Instruction) {
+			ci, ok := in.(ssa.CallInstruction)
+			if !ok {
+				return
+			}
+			cl := core.CommonCallee(ci.Common())
+			if cl == nil {
+				return
+			}
+			args := ci.Common().Args
+			switch calleeKey(cl) {
+			case "io.Copy", "io.CopyN", "io.CopyBuffer":
+				if len(args) > 0 && fromOutside(args[0]) {
+					bad = append(bad, "io.Copy into a captured writer at "+p.Pos(in.Pos()))
+				}
+			}
+			if cl.Pkg() != nil && cl.Pkg().Path() == "bytes" {
+				switch cl.Name() {
+				case "Write", "WriteString", "WriteByte", "WriteRune", "ReadFrom":
+					if len(args) > 0 && fromOutside(args[0]) {
+						bad = append(bad, "write into a captured bytes.Buffer at "+p.Pos(in.Pos()))
+					}
+				}
+			}
+			if b, ok := ci.Common().Value.(*ssa.Builtin); ok && b.Name() == "append" && len(args) > 0 && fromOutside(args[0]) {
+				bad = append(bad, "append to a captured slice at "+p.Pos(in.Pos()))
+			}
+		})
+		r.Check(len(bad) == 0, rule, core.FuncName(fn)+"/attempt-leaves-nothing", "an attempt of the retried closure does not add to a buffer or slice captured from outside it (what a failed attempt read is gone before the next one)", strings.Join(bad, "; "), p.Pos(fn.Pos()))
+	}
+	if n < 3 {
+		core.Undecide("only %d retry closures found in the storage packages", n)
+	}
+}
